@@ -507,15 +507,29 @@ func (fc *funcContext) methodName(fun *types.Func) string {
 	return sanitizeName(fun.Name())
 }
 
+// varPtrKey identifies the variable that caches the pointer to o: one per
+// package for a package-level o, one per function context otherwise.
+type varPtrKey struct {
+	o  *types.Var
+	fc *funcContext
+}
+
 func (fc *funcContext) varPtrName(o *types.Var) string {
 	if isPkgLevel(o) && o.Exported() {
 		return fc.pkgVar(o.Pkg()) + "." + o.Name() + "$ptr"
 	}
 
-	name, ok := fc.pkgCtx.varPtrNames[o]
+	// The pointer cache of a local variable is itself a local variable of the
+	// function being translated: every instantiation of a generic function
+	// allocates (and declares) its own, with a name that is free in its own scope.
+	key := varPtrKey{o: o}
+	if !isPkgLevel(o) {
+		key.fc = fc
+	}
+	name, ok := fc.pkgCtx.varPtrNames[key]
 	if !ok {
 		name = fc.newVariable(o.Name()+"$ptr", isPkgLevel(o))
-		fc.pkgCtx.varPtrNames[o] = name
+		fc.pkgCtx.varPtrNames[key] = name
 		return name
 	}
 
